@@ -24,6 +24,21 @@ CLAIMS = {
  'C15': ('proof', 'C15_labelling / C15_laws: for every snapshot without names nameArguments produces a labelling satisfying the independently written c15_ok (same value <=> same name, every recurring pointer named, #1..#k dense, ascending, '
          'first-goroutine pointers first, non-pointers never named, no other field changed), C15_consistent; correspondence on dumps scanned with NameArguments on/off', 'section 6 C15',
          'Coq proof against an executable specification + correspondence'),
+ 'C02': ('proof', 'C02_partition / C02_conservation (every handled line is forwarded, consumed or the rejected one; forwarded bytes are lines of the input in order; handled ++ suffix ++ unread = input, for EVERY schedule), '
+         'C02_no_dump_identity, C02_dump_contiguous (outside the dump only the two race-header lines can be withheld: the known finding K1, C02_K1_refuted); correspondence on forwarded bytes / remainder incl. the real pp binary; '
+         'K1 is reported as KNOWN-FINDING', 'section 6 C02', 'Coq proof over the scan loop (ghost-instrumented run relation) + correspondence + conservation oracle on the implementation output'),
+ 'C03': ('proof', 'C03_func_init_total, C03_parse_func_total, C03_scan_total (state invariant Inv preserved by every line, no Go panic modelled as GoResult), C03_scan_snapshot_total (for EVERY source: any schedule, zero reads, any terminal error; fuel never exhausted), '
+         'C03_work_bounded; aggregation never panics by C04_partition; correspondence under recover() on grammar-aware mutants, resumed scanning, pp, aggregate, ToHTML. Partial: CPU time is not modelled, only iteration counts', 'section 6 C03',
+         'Coq totality proof (explicit panic monad + invariant) + mutation-based differential testing under recover()'),
+ 'C09': ('proof', 'C09_read_line_total (every schedule), C09_read_line_spec / C09_lines (lines depend on the content only), C09_scan_independent (snapshot, forwarded bytes, error, suffix ++ unread independent of any two stall-free schedules), C09_noprogress, C09_buffer_bounded; '
+         'correspondence predicts the exact Read sizes under scripted readers; all 2^(n-1) chunkings of short inputs. Aliasing of returned slices with the buffer is not expressible in the functional model: covered by correspondence only', 'section 6 C09',
+         'Coq simulation proof between two delivery schedules + correspondence on exact Read traces'),
+ 'C11': ('proof', 'C11_lines_before_read (at every Read the number of lines handed to the scanner equals the number of complete lines delivered), C11_write_follows_line, C11_prompt_return (no Read after the line that ends the dump), for every schedule; '
+         'correspondence on (len(p), n, bytes written) at every Read. Partial: OS pipes and the Go scheduler are not modelled (end-to-end half exercised through pp only)', 'section 6 C11',
+         'Coq trace invariant + correspondence on event traces'),
+ 'C16': ('proof', '29 theorems: C16_blocks(+filtered), C16_block_shape, C16_header_fields, C16_aligned (rune offsets of the file and function columns equal on every call line), C16_colour_erasure (strip_csi (coloured) = uncoloured for any palette of CSI strings), '
+         'C16_filter_match_split (filter-out and match-only outputs partition the unfiltered blocks), C16_complete; correspondence byte for byte with the real pp binary', 'section 6 C16',
+         'Coq proofs over the token-level renderer model + byte-exact correspondence with the pp binary'),
 }
 
 def main():
